@@ -8,8 +8,9 @@ from ..core import Batch, cN, cZ, cbool, clist, copt, cpair
 ID = "C18"
 LEVEL = "proof"
 PROP_FILE = "Properties/C18.v"
-PROOF_FILES = ["Proofs/SubseqProofs.v", "Model/Subseq.v"]
-TRUSTED = ["model Model/Subseq.v of utils/subsequences.py (loop on the binary digits of the parent mask)"]
+PROOF_FILES = ["Proofs/SubseqProofs.v", "Model/Subseq.v", "Gen/SubseqGen.v", "Proofs/SubseqGenProofs.v"]
+TRUSTED = ["translator translator/pyfun.py + the type table in translator/subseq_gen.py (statement-by-statement translation of utils/subsequences.py into Gen/SubseqGen.v, regenerated on every run; proved equal to Model/Subseq.v)",
+           "model Model/Subseq.v of utils/subsequences.py (loop on the binary digits of the parent mask), also compared with the code directly"]
 ASSUMES = ["Python int bit operations behave as unbounded binary naturals (modelled by Coq N)"]
 RULE = ("segment-distance cases: (child, parent, edges) triples, exhaustive up to the tier's bit width plus random wide masks; "
         "non-trivial = child non-empty and contained in parent with at least one lost run; "
@@ -17,6 +18,15 @@ RULE = ("segment-distance cases: (child, parent, edges) triples, exhaustive up t
 OPEN_GOALS: list = []
 
 HEADER = "From SR Require Import Model.Subseq.\n"
+GEN_HEADER = "From SR Require Import Model.Subseq Gen.SubseqGen.\n"
+
+
+def pre_build(ctx):
+    from translator import subseq_gen
+    from .. import core
+    changed = subseq_gen.regenerate(core.REPO)
+    ctx.notes.append("Gen/SubseqGen.v " + ("regenerated (content changed)" if changed else "regenerated: unchanged"))
+
 
 
 def _impl():
@@ -162,10 +172,41 @@ def batches(ctx):
         describe=f"every subsequence of every sequence of distinct symbols up to length {maxlen}, plus random (also malformed) streams",
     )
 
-TECHNIQUE = "Coq proof (induction on binary digits / lists) of model = specification; model tied to the code by exhaustive small-domain + random correspondence evaluated with vm_compute"
+    # 3. the generated functions themselves against the code (checks the translator, not the model)
+    gcases = [c for c in mcases if True][: (3000 if ctx.quick() else 30000)]
+
+    def impl_g(c):
+        r = impl_m(c)
+        sd = S.subseq_segment_dist(c["mask"], S.mask_from_subseq(c["child"], c["parent"]) | c["mask"], len(c["child"]) % 2 == 0)
+        return {**r, "sd": sd}
+
+    yield Batch(
+        name="generated", header=GEN_HEADER,
+        run="fun '(ch, pa, m) => (gen_mask_from_subseq N.eqb ch pa, gen_subseq_from_mask m pa, gen_subseq_complete pa, "
+            "match gen_mask_from_subseq N.eqb ch pa with Ok k => gen_subseq_segment_dist m (N.lor k m) (Nat.even (length ch)) | Err e => Err e end)",
+        eqb="fun a b => let '(m1, o1, k1, d1) := a in let '(m2, o2, k2, d2) := b in "
+            "match m1, m2 with Ok x, Ok y => N.eqb x y | _, _ => false end && "
+            "match k1, k2 with Ok x, Ok y => Z.eqb x y | _, _ => false end && "
+            "match d1, d2 with Ok x, Ok y => Z.eqb x y | _, _ => false end && "
+            "match o1, o2 with Err IndexError, Err IndexError => true | Ok x, Ok y => if list_eq_dec N.eq_dec x y then true else false | _, _ => false end",
+        ty_in="list N * list N * N", ty_out="res N * res (list N) * res Z * res Z",
+        cases=gcases, impl=impl_g,
+        enc_in=lambda c: cpair(clist(map(cN, c["child"])), clist(map(cN, c["parent"])), cN(c["mask"])),
+        enc_out=lambda c, r: "(" + ", ".join(["Ok " + cN(r["mask"]),
+                                              "Err IndexError" if r["from_mask"] is None else "Ok " + clist(map(cN, r["from_mask"])),
+                                              "Ok " + cZ(r["complete"]), "Ok " + cZ(r["sd"])]) + ")",
+        oracle=oracle_m,
+        nontrivial=lambda c, r: 0 < len(c["child"]) < len(c["parent"]),
+        exhaustive=False, shard=1500,
+        describe="the functions of the regenerated Gen/SubseqGen.v (translation of the current source) evaluated on the same mask cases, "
+                 "plus subseq_segment_dist(mask, mask_from_subseq(child) | mask, edges)",
+    )
+
+TECHNIQUE = "Coq proof (induction on binary digits / lists) of model = specification; the model is tied to the code twice: a translator regenerates Gen/SubseqGen.v from utils/subsequences.py on every run and Coq proves generated = model for all inputs; plus exhaustive small-domain + random correspondence evaluated with vm_compute"
 LEVEL_TEXT = ("Machine-checked theorems: for every non-empty child mask seg_dist equals the run-count specification (all widths), "
               "-1 iff not contained; both mask round trips and the complete mask, for sequences of any length. "
-              "The Gallina model is compared with utils/subsequences.py on every (child,parent) pair below 2^7 (quick) / 2^10 (thorough), both end modes, "
+              "The four functions of utils/subsequences.py are translated statement by statement into Gallina on every run and proved equal to the model (errors and loop fuel included), so a semantic edit of that file breaks a proof obligation. "
+              "The Gallina model is also compared with utils/subsequences.py on every (child,parent) pair below 2^7 (quick) / 2^10 (thorough), both end modes, "
               "all subsequences of sequences up to length 6/8 and random wide masks.")
-LEVEL_NOTE = ("Trusted: Coq kernel; the hand-written model (correspondence is differential testing on the explored domain, not proof); "
+LEVEL_NOTE = ("Trusted: Coq kernel; the translator (pyfun.py: Python subset -> Gallina, fail-closed, with a declared type table) and the hand-written model (correspondence is differential testing on the explored domain, not proof); "
               "Python ints behave as unbounded naturals. All theorems closed under the global context (no axioms).")
